@@ -45,6 +45,8 @@ def judge(rep, scens, label):
     rep.cov["evaluations"] += nlines
     for k in ("model_open_equal", "model_open_differs"):
         rep.cov[k] = rep.cov.get(k, 0) + summ.get(k, 0)
+    for c in summ.get("crashed", []):
+        rep.violation("the harness process dies or hangs while executing this scenario alone", {"engine": "fcache", "scenario": scens[c["t"]], "rules": ["process-crash-or-hang"], "why": c["why"]})
     seen = set()
     for b in bad:
         if b["t"] in seen:
